@@ -564,6 +564,11 @@ def _parse_node_for_arg(_required, action, choices, node, typ):
         )
         if len(maybe_choices) == len(node.elts):
             choices = maybe_choices
+    elif isinstance(node, Subscript) and getattr(node.value, "id", None) == "Literal":
+        # `Literal['only']`: a single element is the subscript itself, there is no tuple of elements
+        elt = node.slice.value if isinstance(node.slice, Index) else node.slice
+        if isinstance(elt, (Constant, Str)):
+            choices = (get_value(elt),)
     elif isinstance(node, Name):
         if node.id == "Optional":
             _required = False
